@@ -37,7 +37,7 @@ def run_prop(prop, tier, seed, replay=None, make_cases=None):
     from . import rustc_engine as rc
     rng = random.Random(seed)
     gate = cm.proof_gate(PREFIX[prop])
-    n = 48 if tier == 'quick' else 1200
+    n = 144 if tier == "quick" else 1800
     violations, nontrivial = [], set()
     stats = dict(cases=0, programs=0, shadow_invalid=0, macro_rejected=0, overlap_witnessed=0, probes=0,
                  implemented=0, values_checked=0, oracle_inconclusive=0, spec_checked=0, by_kind={})
@@ -58,7 +58,14 @@ def run_prop(prop, tier, seed, replay=None, make_cases=None):
             r = rc.compile_run(rp['program'])
             print('replay: compiles=%s errors=%s stdout=%s' % (r['ok'], r['errors'][:3], r.get('stdout', '')[:500]))
         return 0, dict(evaluations=1, distinct_nontrivial=0, obligations=len(gate['theorems']), discharged=len(gate['theorems']), checker_cmd='replay', trusted_base=[]), 0
-    cases = make_cases(rng, n) if make_cases else [gp.gen_case(rng, KINDS[prop][i % len(KINDS[prop])]) for i in range(n)]
+    def systematic(n):
+        seen, out = {}, []
+        for i in range(n):
+            k = KINDS[prop][i % len(KINDS[prop])]
+            out.append(gp.gen_case(rng, k, idx=seen.get(k, 0)))    # the k-th case of a kind enumerates its axes
+            seen[k] = seen.get(k, 0) + 1
+        return out
+    cases = make_cases(rng, n) if make_cases else systematic(n)
     obs = pe.observe(cases, with_values=(prop == 'C01'))
     for c, o in zip(cases, obs):
         stats['cases'] += 1
